@@ -304,6 +304,14 @@ def rules(ck, P):
     dup = {t: a for t, a in tags.items() if len(a) > 1}
     ck.check(not dup and len(tags) >= 7, "R-REGISTRY", "tags-unique", "%d operation tags, all distinct: %s" % (len(tags), sorted(tags)), "duplicate tags %s (a later registration replaces an earlier one in the name map)" % dup)
 
+    # array parameters keep their element order: get_property_number_array4 returns [v[0], v[1], v[2], v[3]] of a 4-element list
+    a4 = [x for x in P.bodies if x["q"].endswith("vpl_node::VPLNode::get_property_number_array4")]
+    if ck.anchor("R-ORDER", "VPLNode::get_property_number_array4", a4, 1):
+        arr = [y for y in ir.walk_nodes(a4[0]["body"]) if y.get("k") == "array" and len(y.get("es", ())) == 4]
+        idx = [[ir.const_eval(z["i"], {}) for z in ir.walk_nodes(e_) if z.get("k") == "index"] for e_ in (arr[0]["es"] if arr else ())]
+        lens = [ir.cmp_norm(y) for y in ir.walk_nodes(a4[0]["body"]) if y.get("k") == "bin" and y.get("op") in ("==", "!=") and ir.cmp_norm(y) is not None and ir.cmp_norm(y)[0].endswith(".len()")]
+        ck.check(idx == [[0], [1], [2], [3]] and any(c[2] == "4" for c in lens), "R-ORDER", a4[0]["q"], "a 4-number parameter is returned as [v[0], v[1], v[2], v[3]] and must have exactly 4 elements",
+                 "array parameters are reordered or mis-sized: indices %s, length tests %s" % (idx, lens), ir.loc(a4[0]))
     # ---------------- R-REQ on the derive expansion
     fns = [x for x in P.bodies if x["q"].endswith("::Args::from_vpl_node")]
     ck.anchor("R-REQ", "derive-generated from_vpl_node", fns, 7)
